@@ -163,12 +163,14 @@ class SSet:
     def __init__(self, base=None, label='set'):
         self.base = base            # function key_term -> z3 Bool, or None (= empty)
         self.adds = []              # key terms
+        self.objs = []              # the added values themselves (parallel to adds where known)
         self.label = label
         self.stamp = _stamp()
 
     def copy(self):
         s = SSet(self.base, self.label)
         s.adds = list(self.adds)
+        s.objs = list(self.objs)
         return s
 
 
@@ -1194,6 +1196,8 @@ class Engine:
         self.symbolic_for(st, env, it)
 
     def concrete_items(self, it):
+        if isinstance(it, (SObj, OptObj)):
+            it = self.iterable(it)          # the object's own __iter__ (contract or body)
         if isinstance(it, (list, tuple)):
             return list(it)
         if isinstance(it, range):
@@ -1206,6 +1210,10 @@ class Engine:
             return list(it.keys())
         if isinstance(it, AStr) and it.is_lit():
             return [AStr([('lit', ch)]) for ch in it.lit()]
+        if isinstance(it, SSet):
+            # iteration order of a set is arbitrary in Python; insertion order is used here.  Order-dependence of
+            # report/option writers on set iteration is the subject of C14/determinism, not of this engine.
+            return self.set_members(it)
         return None
 
     def loop_key(self, st):
@@ -1814,8 +1822,27 @@ class Engine:
     def ev_Set(self, e, env):
         s = SSet(None)
         for x in e.elts:
-            s.adds.append(self.key_term(self.eval(x, env)))
+            v = self.eval(x, env)
+            s.adds.append(self.key_term(v))
+            s.objs.append(v)
         return s
+
+    def set_members(self, s):
+        """the distinct members of a set built from nothing but adds, in insertion order (equalities between
+        members that the path condition leaves open are decided by forking); None when the set has a symbolic base
+        or members whose values were not kept."""
+        if s.base is not None or len(s.objs) != len(s.adds):
+            return None
+        out = []
+        for k, v in zip(s.adds, s.objs):
+            dup = False
+            for k2, _ in out:
+                if self.decide(SV(k == k2, 'bool')):
+                    dup = True
+                    break
+            if not dup:
+                out.append((k, v))
+        return [v for _, v in out]
 
     def iter_concrete(self, v):
         items = self.concrete_items(v)
